@@ -1,14 +1,15 @@
 package gengo
 
 var verifHarnesses = map[string]any{
-	"Verif_C03_WriteImports": Verif_C03_WriteImports,
-	"Verif_C06_Enabled":      Verif_C06_Enabled,
-	"Verif_C06_Merge":        Verif_C06_Merge,
-	"Verif_T2_Smoke":         Verif_T2_Smoke,
-	"Verif_C02_Faults":       Verif_C02_Faults,
-	"Verif_C07_Effects":      Verif_C07_Effects,
+	"Verif_C03_WriteImports":    Verif_C03_WriteImports,
+	"Verif_C06_Enabled":         Verif_C06_Enabled,
+	"Verif_C06_Merge":           Verif_C06_Merge,
+	"Verif_C15_Expose":          Verif_C15_Expose,
+	"Verif_T2_Smoke":            Verif_T2_Smoke,
+	"Verif_C02_Faults":          Verif_C02_Faults,
+	"Verif_C07_Effects":         Verif_C07_Effects,
 	"Verif_C05_AloneVsTogether": Verif_C05_AloneVsTogether,
-	"Verif_C06_Dispatch":     Verif_C06_Dispatch,
-	"Verif_C08_History":      Verif_C08_History,
-	"Verif_C04_Deterministic": Verif_C04_Deterministic,
+	"Verif_C06_Dispatch":        Verif_C06_Dispatch,
+	"Verif_C08_History":         Verif_C08_History,
+	"Verif_C04_Deterministic":   Verif_C04_Deterministic,
 }
